@@ -51,26 +51,60 @@ def oracle(ctx, stream, case_lines, rep):
 
 
 def run_oracle_over(ctx, stream, ops):
-    """Second line: the independent oracle over a whole ops file."""
-    out = ops + ".verdict"
-    for stale in (out, out + ".counters"):
-        if os.path.exists(stale):
-            os.remove(stale)
-    rc, log = ctx.harness("oracle", stream, ops, out)
-    if rc != 0 or not os.path.exists(out):
-        ctx.tie_broken("oracle-run:%s" % stream, log)
-        return
-    verdicts = ctx.read_lines(out)
-    ctx.count("oracle.%s.cases" % stream, len(verdicts))
-    # branch counters: how often the generated cases reached the rare paths (exact-host fast path and its hidden-entry
-    # fallback, Kubernetes replacement, root-namespace DestinationRule, several candidate namespaces, incremental updates)
-    if os.path.exists(out + ".counters"):
-        for l in ctx.read_lines(out + ".counters"):
-            f = l.split()
-            if len(f) == 2:
-                ctx.count(f[0], int(f[1]))
+    """Second line: the independent oracle over a whole ops file (large files in parallel chunks of whole cases)."""
+    from concurrent.futures import ThreadPoolExecutor
     lines = ctx.read_lines(ops)
     starts = [k for k, l in enumerate(lines) if l.startswith("case")]
+    chunk = 2500
+    parts = []
+    if len(starts) > 2 * chunk:
+        for n, i in enumerate(range(0, len(starts), chunk)):
+            s = starts[i]
+            e = starts[i + chunk] if i + chunk < len(starts) else len(lines)
+            p = "%s.part%d" % (ops, n)
+            with open(p, "w") as f:
+                f.write("\n".join(lines[s:e]) + "\n")
+            parts.append(p)
+    else:
+        parts = [ops]
+
+    def one(p):
+        out = p + ".verdict"
+        for stale in (out, out + ".counters"):
+            if os.path.exists(stale):
+                os.remove(stale)
+        rc, log = ctx.harness("oracle", stream, p, out, timeout=5400)
+        if rc != 0 or not os.path.exists(out):
+            return None, log, {}
+        counters = {}
+        if os.path.exists(out + ".counters"):
+            for l in ctx.read_lines(out + ".counters"):
+                f = l.split()
+                if len(f) == 2:
+                    counters[f[0]] = int(f[1])
+        return ctx.read_lines(out), log, counters
+
+    with ThreadPoolExecutor(max_workers=4) as ex:
+        results = list(ex.map(one, parts))
+    verdicts = []
+    for p, (v, log, counters) in zip(parts, results):
+        if v is None:
+            ctx.tie_broken("oracle-run:%s" % stream, log)
+            return
+        verdicts += v
+        # branch counters: how often the generated cases reached the rare paths (exact-host fast path and its hidden-entry
+        # fallback, Kubernetes replacement, root-namespace DestinationRule, several candidate namespaces, incremental updates)
+        # and contained the rarer input shapes
+        for k, n in counters.items():
+            ctx.count(k, n)
+        if p != ops:
+            for f in (p, p + ".verdict", p + ".verdict.counters"):
+                if os.path.exists(f):
+                    os.remove(f)
+    ctx.count("oracle.%s.cases" % stream, len(verdicts))
+    if len(verdicts) != len(starts):
+        ctx.tie_broken("oracle-run:%s" % stream, "the oracle answered %d cases of %d" % (len(verdicts), len(starts)))
+        return
     for i, v in enumerate(verdicts):
         if v.startswith("FAIL") and i < len(starts):
             clause = v.split()[1]
